@@ -471,11 +471,13 @@ class Driver:
         """final bookkeeping of a file store: (packed key ids, raw-file key ids, encoded-file key ids)"""
         if self.backend != 'file':
             return None
-        st = self.store
-        packed = sorted(key_id(k) for k in st.packed.keys())
+        # read from the documented directory layout, not through private methods of file_store (the pack on disk is the
+        # store object's copy of it: every change of the copy is followed by a save)
+        jd = self.jugdir()
+        packed = sorted(key_id(k) for k in storefaults.pack_on_disk(jd).keys())
         raw, encd = [], []
-        for k in st._iter_filekeys():
-            with open(st._getfname(k), 'rb') as f:
+        for k in storefaults.keys_on_disk(jd):
+            with open(storefaults.result_path(jd, k), 'rb') as f:
                 head = f.read(len(NPY_MAGIC))
             (raw if head == NPY_MAGIC else encd).append(key_id(k))
         return (packed, sorted(raw), sorted(encd))
@@ -525,8 +527,8 @@ def apply_op(drv, op, U):
             # file_store.cleanup also sweeps (and counts) the stray files of tempfiles/ that dumps which did not
             # complete left behind; the model's count is about results: count them apart
             stray = 0
-            if drv.backend == 'file' and os.path.isdir(st.tempdir()):
-                stray = len(os.listdir(st.tempdir()))
+            if drv.backend == 'file' and os.path.isdir(storefaults.tempdir_of(drv.jugdir())):
+                stray = len(os.listdir(storefaults.tempdir_of(drv.jugdir())))
             return ('count', int(st.cleanup([Stub(KEYS[i - 1]) for i in op[1]])) - stray)
         if kind == 'pack':
             return ('count', int(st.update_pack()))
@@ -536,18 +538,22 @@ def apply_op(drv, op, U):
         if kind == 'dump_fail':
             # dump of a value whose encoding raises: the exception must come out and nothing may change
             kb = KEYS[op[1] - 1]
-            packed_before = drv.backend == 'file' and kb in st.packed
+            packed_before = drv.backend == 'file' and kb in storefaults.pack_on_disk(drv.jugdir())
+            raised = False
             try:
                 st.dump(storefaults.failing_value(op[2], op[3]), kb)
             except BaseException as e:
-                if type(e).__name__ != op[2]:
+                if type(e).__name__ != op[2] or (storefaults.raised_in_harness(e, core.VERIF)
+                                                 and 'injected while encoding' not in str(e)):
                     raise
-                how = 'nothing'
-                if packed_before and kb not in st.packed:
-                    # recorded observation (DESIGN.md, C05/C06): dump() drops the packed copy of the key BEFORE it writes
-                    how = 'kept' if os.path.exists(st._getfname(kb)) else 'dropped'
-                return ('raised', op[2], how)
-            return ('unit',)
+                raised = True
+            if not raised:
+                return ('unit',)
+            how = 'nothing'
+            if packed_before and kb not in storefaults.pack_on_disk(drv.jugdir()):
+                # recorded observation (DESIGN.md, C05/C06): dump() drops the packed copy of the key BEFORE it writes
+                how = 'kept' if os.path.exists(storefaults.result_path(drv.jugdir(), kb)) else 'dropped'
+            return ('raised', op[2], how)
         if kind == 'dump_begin':
             drv.begin_dump(KEYS[op[1] - 1], U.entries[op[2]]['value'])
             return ('unit',)
@@ -562,7 +568,9 @@ def apply_op(drv, op, U):
                 storefaults.killed_pack(st, drv.jugdir(), op[1])
                 drv.store = drv._open()
             return ('unit',)
-    except Exception as e:          # anything unexpected is an observation, not a crash of the check
+    except Exception as e:          # anything unexpected FROM JUG is an observation, not a crash of the check
+        if storefaults.raised_in_harness(e, core.VERIF):
+            raise                   # a harness bug / a jug internal the harness must not rely on: never an observation
         return ('err', err_code(e), '%s: %s' % (type(e).__name__, str(e)[:120]))
     raise ValueError('unknown op %r' % (op,))
 
@@ -646,6 +654,8 @@ def run_sequence(backend, opts, ops, U):
             if not (obs_all and obs_all[-1][0] == 'err'):
                 try:
                     shape = drv.shape()
+                except (AttributeError, TypeError, NameError):
+                    raise                        # the harness, not the store
                 except Exception:
                     shape = None
         finally:
@@ -992,10 +1002,12 @@ def frame_cases(ck, U):
                 k = KEYS[i % len(KEYS)]
                 try:
                     st.dump(e['value'], k)
-                    with open(st._getfname(k), 'rb') as f:
+                    with open(storefaults.result_path(scratch + '/jd', k), 'rb') as f:
                         fb = f.read()
                     back = U.id_of(file_store(scratch + '/jd', compress_numpy=compress).load(k))
-                except Exception:
+                except Exception as ex:
+                    if storefaults.raised_in_harness(ex, core.VERIF):
+                        raise
                     fb, back = None, -3
                 if back != i:
                     # re-run as a two-step sequence on a fresh store: the standard, replayable report
